@@ -9,7 +9,8 @@ from corankco.dataset import Dataset
 from corankco.scoringscheme import ScoringScheme
 
 NAME_POOLS = [[0, 1, 2, 3, 4, 5], [8, 16, 24, 32, 3, 11], ["a", "b", "c", "d", "e", "f"], ["1", "2", "03", "4", "5", "10"],
-              ["1", "a", "2", "b", "30", "c"], [1, "2", 3, "4", 5, "6"], [1, "x", 2, "y", 3, "z"], ["x y", "p", "q", "-1", "r", "s"]]
+              ["1", "a", "2", "b", "30", "c"], [1, "2", 3, "4", 5, "6"], [1, "x", 2, "y", 3, "z"], ["x y", "p", "q", "-1", "r", "s"],
+              [-1, 2, -3, 4, 0, 6], [-1, "2", 3, "4", -5, "6"], [-2, "x", 3, "y", -4, "z"]]
 
 
 def raw_dataset(rng, nmax=6, mmax=5):
@@ -39,6 +40,8 @@ def op_term(op):
         return "OpUnifiedDataset"
     if k == "sub_problem":
         return f"(OpSubProblem {names_term(op['K'])})"
+    if k == "refused":
+        return "OpRefused"
     raise ValueError(k)
 
 
@@ -131,7 +134,15 @@ class Histories(Suite):
                 out.append({"before": before, "op": op, "out": {"ok": dsnap(res)}})
             except Exception as e:
                 out.append({"before": before, "op": op, "out": {"err": err_name(e)}})
-                break   # a failed mutator may leave the object half-updated: the history stops here
+                # a refused mutator must leave the dataset as it was: one more step observes the object after the exception
+                if h["op"] in ("remove_elements", "remove_rate", "remove_empty") and ds is not None:
+                    try:
+                        out.append({"before": before, "op": {"op": "refused"}, "out": {"ok": dsnap(ds)}})
+                    except Exception as e2:
+                        import traceback as _tb
+                        out.append({"before": before, "op": {"op": "refused"},
+                                    "out": {"harness_exception": err_name(e2), "trace": "snapshot after a refused " + h["op"] + ": " + _tb.format_exc()[-500:]}})
+                break   # the history stops here
         return out
 
     def run(self, case):
